@@ -320,7 +320,7 @@ impl<R: Read, TSpec> TagIterator<R, TSpec>
                         match id {
                             PathPart::Id(id) => {
                                 ProcessingTag { 
-                                    tag: <TSpec>::get_master_tag(*id, Master::Start).unwrap_or_else(|| panic!("Bad specification implementation: Tag id 0x{:x?} type was in path, but could not get master tag!", id)),
+                                    tag: <TSpec>::get_master_tag(*id, Master::End).unwrap_or_else(|| panic!("Bad specification implementation: Tag id 0x{:x?} type was in path, but could not get master tag!", id)),
                                     size: EBMLSize::Unknown,
                                     tag_start: 0,
                                     data_start: 0,
